@@ -331,3 +331,12 @@ def check(ctx):
     # comprehensions nested inside each other re-using session names: the session reads as before afterwards
     import nested_common
     nested_common.run(ctx, ctx.n(400, 6000), "nested")
+
+
+# ---- refinement lemmas of the unified pipeline model for this property (Props/PipelineArr.lean): the scope of
+# comprehension variables (save / set in place / restore = the local copy the model runs on), and the session
+# fragment's expressions inside comprehensions
+import pipeline as _pl
+LEAN_MODULES = LEAN_MODULES + [m for m in _pl.LEAN_MODULES3 if m not in LEAN_MODULES]
+THEOREMS = THEOREMS + [t for t in _pl.THEOREMS3.get(ID, []) if t not in THEOREMS]
+GEN = GEN + [g for g in _pl.GEN if g not in GEN]
